@@ -165,7 +165,9 @@ resp0_ctx_send(void *arg, nni_aio *aio)
 		return;
 	}
 
-	if ((len = ctx->btrace_len) == 0) {
+	if (((len = ctx->btrace_len) == 0) || (ctx->saio != NULL)) {
+		// No survey to answer, or the previous response of this
+		// context is still waiting for its pipe.
 		nni_mtx_unlock(&s->mtx);
 		nni_aio_finish_error(aio, NNG_ESTATE);
 		return;
